@@ -1103,6 +1103,16 @@ Proof.
     destruct (I2 c' Hc') as [Hn _]. apply Hn. eapply maccepting_cong; [apply mzcfg_eq_sym; exact He'|exact Hacc].
 Qed.
 
+(* the run of ANY table (final states with rows, entries without alternatives included) ends in one of
+   three ways: no exception other than rejection *)
+Lemma mntm_accepts_cases fuel w :
+  mntm_accepts m fuel w = Ok true \/ mntm_accepts m fuel w = Ok false \/ mntm_accepts m fuel w = Err Fuel.
+Proof.
+  unfold mntm_accepts. destruct (mntm_stepwise m fuel w) as [ys o] eqn:E.
+  destruct (mntm_stepwise_sound w fuel ys o E) as [_ [_ S3]]. simpl snd.
+  destruct o as [cl|e]; simpl; [auto|]. destruct e; try contradiction; simpl; auto.
+Qed.
+
 End MNTM.
 
 (* ================= validity, verdicts of the multitape machine ================= *)
